@@ -671,7 +671,8 @@ fn seq_post<T: Payload + 'static>(cx: &mut Ctx<T>, sp: &mut Spec, observers: boo
 /// abstraction of the real state are compared with the reference model after every call.
 /// A symbolic choice of the operation kind was measured to be out of reach: merging the heap states of
 /// 9 alternative operations takes the solver > 280 s for a single step.
-pub fn seqc<T: Payload + 'static>(cap: Option<usize>, ops: &[(u8, u8, u8, u8)], observers: bool) {
+/// observers: 0 = never, 1 = every public observer after every call, 2 = after the last call only
+pub fn seqc<T: Payload + 'static>(cap: Option<usize>, ops: &[(u8, u8, u8, u8)], observers: u8) {
     unsafe {
         model::CLOCK_FROZEN = true;
         model::PAR = if kani::any() { 1 } else { 2 };
@@ -684,7 +685,7 @@ pub fn seqc<T: Payload + 'static>(cap: Option<usize>, ops: &[(u8, u8, u8, u8)], 
     while i < ops.len() {
         let (k, f, w, d) = ops[i];
         seq_step(&mut cx, &mut sp, k, i, f, w, d);
-        seq_post(&mut cx, &mut sp, observers);
+        seq_post(&mut cx, &mut sp, observers == 1 || (observers == 2 && i + 1 == ops.len()));
         i += 1;
     }
     assert!(cx.order_len == sp.order_len, "C01: number of values received differs from the reference model");
